@@ -295,7 +295,10 @@ def _match_known(known, pid, v):
     for k in known.get('known', []):
         if k['property'] != pid:
             continue
-        if k.get('clause') and k['clause'] != v.get('clause'):
+        if k.get('clauses'):
+            if v.get('clause') not in k['clauses']:
+                continue
+        elif k.get('clause') and k['clause'] != v.get('clause'):
             continue
         pred = k.get('match')
         if pred:
